@@ -29,9 +29,10 @@ TRUSTED = [
 ASSUMPTIONS = [
     "programs: one `main` task returning an expression over 7 real tasks: calls with positional/keyword/defaulted parameters "
     "(default expressions: a task call, getitem of a task call, a list with a task call, call + 1), lazy operators (+, reversed +, "
-    "[0], [1]), lists, cond, catch (failing and non-failing), apply_tags, prov=False calls, structurally equal sub-expressions as "
+    "[0], [1]), lists, cond, catch (failing and non-failing, and nested catches whose inner recover task raises), apply_tags, prov=False calls, structurally equal sub-expressions as "
     "distinct objects (duplicates) including duplicated scheduler expressions",
-    "a failing call occurs only as the protected expression of a catch; scheduler expressions are not nested inside cond branches "
+    "a failing call occurs only as the protected expression of a catch, and the failing call of a nested catch is not shared with "
+    "another catch; scheduler expressions are not nested inside cond branches "
     "or catch bodies (their relative evaluation order would be timing dependent); every call carries a tag literal that makes "
     "call nodes of different expressions distinct",
 ]
@@ -114,6 +115,11 @@ class Gen:
                 body = self.call("boom", True, [self.int_expr(depth - 1, False) for _ in range(rng.choice([0, 1]))])
             else:
                 body = self.int_expr(depth - 1, False)
+            if body[0] == "call" and body[1] == "boom" and rng.random() < 0.35:
+                # nested: the inner recover task raises, the outer catch handles that.  The failing call gets an argument of
+                # its own: a failing call shared by two different catches is an expression-level duplicate whose call_hash
+                # is never copied (the copy callback only runs on success) - observed, reported, kept out of the generator
+                body = ("catch", self.call("boom", True, [("lit", 50 + len(self.tags))]), "rb")
             e = ("catch", body)
         else:
             e = ("tags", self.int_expr(depth - 1, False))
@@ -182,7 +188,10 @@ def _fixed_corpus():
     # index 2 (i % 3 == 2): re-versioned second execution; sink(cond(flag(), src(1), src(2))), tags, catch as arguments
     w_de = g.call("t", True, [("cond", g.call("t", True, [("lit", 20)]), g.call("t", True, [("lit", 21)]), g.call("t", True, [("lit", 22)])),
                               ("tags", g.call("lst", True, [("lit", 23)])), ("catch", g.call("t", True, [("lit", 24)]))])
-    return [("cont", [w_dup]), ("cont", [w_cc]), ("cont", [w_de]), ("cont", [w_def]), ("cont", [w_def2, w_catch]), ("cont", [w_np]),
+    # nested catches: the inner recover raises, the outer catch handles it and its recover(error) gets a new call node
+    w_nc = g.call("t", True, [("catch", ("catch", g.call("boom", True, [("lit", 30)]), "rb")),
+                              ("catch", ("catch", g.call("t", True, [("lit", 31)]), "rb"))])
+    return [("cont", [w_dup]), ("cont", [w_cc]), ("cont", [w_de]), ("cont", [w_nc]), ("cont", [w_def]), ("cont", [w_def2, w_catch]), ("cont", [w_np]),
             ("cont", [("lit", 1)])]
 
 
@@ -230,12 +239,13 @@ def to_model(e, flags):
 
 
 def catch_info(e):
+    """(did the protected expression raise, key of the recover call): rec(error) -> 1000 + n, rec_boom(error) -> 3000 + n"""
     import gm_tasks21 as T
     try:
         T.value_of(e[1])
         return False, 0
     except T.Boom as b:
-        return True, 1000 + b.args[0]
+        return True, (3000 if len(e) > 2 and e[2] == "rb" else 1000) + b.args[0]
 
 
 def producers(e):
@@ -300,6 +310,15 @@ def spec_rows(e, out, seen):
         seen.add(repr(e))
 
 
+def catch_raises(e):
+    import gm_tasks21 as T
+    try:
+        T.value_of(e)
+        return False
+    except T.Boom:
+        return True
+
+
 def evaluated_calls(e, out, top=True):
     """calls that the program evaluates as *arguments* (not the outermost ones), failing calls excluded: running them
     in an earlier execution makes them cache hits in the real run while the calls consuming them are new"""
@@ -326,7 +345,7 @@ def evaluated_calls(e, out, top=True):
         evaluated_calls(e[1], out, False)
         evaluated_calls(e[2] if T.value_of(e[1]) else e[3], out, False)
     elif k in ("catch", "tags"):
-        if k == "catch":
+        if k == "catch" and not catch_raises(e):
             out.append(e)           # the catch itself: served from its own cache in the later execution
         evaluated_calls(e[1], out, False)
 
@@ -462,8 +481,8 @@ def run_program(ctx, prog, replay_run=False, warm=False, rever=False):
                 continue
             a0 = [a for a in n.arguments if a.arg_position == 0]
             v = a0[0].value_parsed if a0 else None
-            if n.task_name == "gm21.rec":
-                label[n.call_hash] = 1000 + int(str(v.args[0])[1:])
+            if n.task_name in ("gm21.rec", "gm21.rec_boom"):
+                label[n.call_hash] = (1000 if n.task_name == "gm21.rec" else 3000) + int(str(v.args[0])[1:])
             elif isinstance(v, int):
                 label[n.call_hash] = v
         got = {}
@@ -494,7 +513,10 @@ def run_program(ctx, prog, replay_run=False, warm=False, rever=False):
             if r.task_name == "gm21.main" or r.eval_args is None or not r.prov:
                 continue
             pos, kw = r.eval_args
-            lab = (1000 + int(str(pos[0].args[0])[1:])) if r.task_name == "gm21.rec" else pos[0]
+            if r.task_name in ("gm21.rec", "gm21.rec_boom"):
+                lab = (1000 if r.task_name == "gm21.rec" else 3000) + int(str(pos[0].args[0])[1:])
+            else:
+                lab = pos[0]
             for i, v in enumerate(pos):
                 received.setdefault((lab, ("p", i)), registry.get_hash(v))
             for n, v in kw.items():
@@ -591,7 +613,7 @@ def replay(ctx, case):
                 return ("op", x[1], [fix(y) for y in x[2]])
             if k == "cond":
                 return ("cond", fix(x[1]), fix(x[2]), fix(x[3]))
-            return (k, fix(x[1]))
+            return (k, fix(x[1])) + tuple(x[2:])
         return x
     p = fix(p)
     mode = c.get("mode") or {}
